@@ -502,14 +502,14 @@ theorem run_attr (ns : NsMap) (neg : Bool) (a : Attr) (ha : a.ok ns = true) (r :
   rw [run_append_ok _ (run_fillQuiet ns cxAttrib _ el b (c + 1) d wf c_attcombinator (by simp) (hq _) a.f2 _)]
   cases hov : a.opv with
   | none =>
-    simp only [List.nil_append]
+    simp only [Attr.opvToks, hov, List.nil_append]
     rw [run_cons_ok _ (step_rbrack ns neg r el b (c + 1) d wf _ _ (Or.inl rfl))]
     simp [Attr.rpush, hov]
   | some q =>
     obtain ⟨o, f3, v, f4⟩ := q
     rw [hov] at hopv
     simp only [Bool.and_eq_true] at hopv
-    simp only [List.cons_append, List.nil_append, List.append_assoc]
+    simp only [Attr.opvToks, hov, List.cons_append, List.nil_append, List.append_assoc]
     rw [run_cons_ok _ (step_attop ns o _ el b (c + 1) d wf _)]
     rw [run_append_ok _ (run_fillQuiet ns cxAttrib _ el b (c + 1) d wf c_attvalue (by simp) (hq _) f3 _)]
     rw [run_cons_ok _ (step_attval ns v hopv.1.2 _ el b (c + 1) d wf _)]
